@@ -122,6 +122,7 @@ type mwUpstream struct {
 	calls   int
 	failAt  int // index of the call that fails; -1 none
 	failed  bool
+	failText string // error text of the failing call ("" = a generic refusal)
 	log     []string
 	signReq []mwSignReq
 	added   []agent.AddedKey
@@ -252,7 +253,10 @@ func (u *mwUpstream) Signers() ([]ssh.Signer, error) {
 
 func (u *mwUpstream) Lock(p []byte) error {
 	if u.fault("Lock") {
-		return errors.New("model: upstream refused to lock")
+		if u.failText != "" {
+			return errors.New(u.failText)
+		}
+		return errors.New("agent: failure")
 	}
 	if u.locked {
 		return errors.New("model: upstream already locked")
@@ -264,7 +268,10 @@ func (u *mwUpstream) Lock(p []byte) error {
 
 func (u *mwUpstream) Unlock(p []byte) error {
 	if u.fault("Unlock") {
-		return errors.New("model: upstream refused to unlock")
+		if u.failText != "" {
+			return errors.New(u.failText)
+		}
+		return errors.New("agent: failure")
 	}
 	if !u.locked {
 		return errors.New("model: upstream not locked")
